@@ -17,9 +17,11 @@ import Duckling.Lemmas.LexName
                                  The keyword matcher keeps the set of names that still have the consumed text as a prefix; the theorem is that
                                  invariant, by induction over the scanner's character loop (`lex_name`), including the two ways the token ends
                                  (the single remaining candidate is complete; the text ends while longer names are still candidates).
-                                 Proved for names whose first letter is not `T` or `F` (those first enter the Boolean class and back-track —
-                                 validated by the correspondence and the exhaustive short-name enumeration; names that are a prefix or an
-                                 extension of TRUE / FALSE are the known finding D14) — `partial` in that respect;
+                                 Names whose first letter is `T` or `F` first enter the Boolean class and back-track: `C20_readable_tf` proves the
+                                 same for every such name that departs from TRUE / FALSE before either ends (`Tab`, `Foo`, `TRx`, `FALx`, …: the
+                                 Boolean class reads the agreeing characters, gives up at the departure, the scanner returns to the start of the
+                                 name with that class black-listed, and the Variable class reads it).  What remains are exactly the names that are
+                                 a prefix or an extension of TRUE / FALSE — the known finding D14, where the statement is false;
   * `C20_readable_in_state`     the same for `evalIn` on an interpreter state.
 -/
 namespace Duckling.Props.C20
@@ -153,6 +155,34 @@ theorem C20_readable_in_state (ctx : Ctx) (pos : Pos) (st : St) (x : Str) (v : V
   unfold evalIn
   rw [C20_readable st.env.allVars x v hvar hv hT hF]
   rfl
+
+/-- **names beginning with T or F** that depart from TRUE / FALSE before either ends read back their value too -/
+theorem C20_readable_tf (vars : VarEnv) (x : Str) (v : Val) (hvar : isVar x false = true) (hv : vars.lookup x = some v)
+    (B : Str) (hB : B = ['T', 'R', 'U', 'E'] ∨ B = ['F', 'A', 'L', 'S', 'E']) (d : Nat) (hd : Departs x B d) :
+    tokenize vars x = .ok v.normalise := by
+  obtain ⟨hne, hacc, hdig⟩ := (C20_accept_iff x).mp hvar
+  have hlen : 0 < x.length := by have := hd.ltx; omega
+  have hall : ∀ c ∈ Generated.acceptableVars.toList,
+      (isSpace c == false && (c == '"') == false && (c == '-') == false && (c == '.') == false) = true := by decide
+  have hx0mem : x[0] ∈ x := List.getElem_mem hlen
+  have hacc0 : x[0] ∈ Generated.acceptableVars.toList := by simpa [acceptable] using hacc _ hx0mem
+  have h := hall _ hacc0
+  simp only [Bool.and_eq_true, beq_iff_eq] at h
+  have hd0 : isDigitC x[0] = false := by
+    apply hdig
+    cases x with
+    | nil => simp at hlen
+    | cons a b => rfl
+  have hc : NameStart0 (x[0]) := ⟨h.1.1.1, h.1.1.2, hd0, h.1.2, h.2⟩
+  have hin := lookup_mem_keys vars x v hv
+  apply tokenize_of_lex_var vars x v hv
+  rcases hB with rfl | rfl
+  · exact lex_name_tf _ x _ 0 (by decide) (by rw [boolKws_eq]; rfl) boolGivesUp_true d hd hin hc
+  · exact lex_name_tf _ x _ 1 (by decide) (by rw [boolKws_eq]; rfl) boolGivesUp_false d hd hin hc
+
+/-- non-vacuity: `Tab` departs from TRUE at its second character -/
+example : Departs ['T', 'a', 'b'] ['T', 'R', 'U', 'E'] 1 :=
+  ⟨by decide, by decide, by decide, by decide, fun _ _ => by simp⟩
 
 /-- non-vacuity: `ab` among `a`, `ab`, `abc` (prefixes of one another) -/
 example : isVar "ab".toList false = true ∧
